@@ -64,7 +64,8 @@ def c13(rng):
                 if (fl >> (int(k[-1]) - 1)) & 1:
                     ex[k] = sf[k] + b'?'
             out.append((nm + ':excluded-field-changed', [bs(w), bs(lock)], ex, cfg, True))
-        bad = next((f for f in (1, 2, 4, 8, 0x40) if f & ~allowed), None)
+        cand = [f for f in (1, 2, 4, 8, 0x10, 0x20, 0x40, 0x80) if f & ~allowed]
+        bad = rng.choice(cand) if cand else None
         if bad is not None:
             out.append((nm + ':flag-not-permitted', [bs(wit_f(SEEDS[a], sf, '%02x' % bad)), bs(lock)], sf, cfg, False))
     # multisig
@@ -114,14 +115,15 @@ def c14(rng):
     cfg = tsh.Cfg()
     root, d1, d2, d3 = rng.sample(range(len(SEEDS)), 4)
     sf = fields(rng)
+    flh = '%02x' % rng.choice([0, 0, 1 << (int(rng.choice(list(sf))[-1]) - 1), 0x80])
     begin = now + rng.choice([-100, -10, -1, 0])
     end = now + rng.choice([1, 10, 50, 100])
     for dt in (begin - now - 1, begin - now, 0, end - now - 1, end - now, end - now + 1, 59, 60):
         t = now + dt
         cache = dict(sf, timestamp=t)
         cert = T.make_delegate_key_cert(SEEDS[root], PUBS[d1], begin, end)
-        w = T.make_delegate_key_witness(SEEDS[d1], cert, sf)
-        lock = T.make_delegate_key_lock(PUBS[root])
+        w = T.make_delegate_key_witness(SEEDS[d1], cert, sf, flh)
+        lock = T.make_delegate_key_lock(PUBS[root], flh)
         exp = (begin <= t < end) and (t - now < 60)
         out.append(('delegate:t=now%+d window[%+d,%+d)' % (dt, begin - now, end - now), [bs(w), bs(lock)], cache, cfg, exp))
     t = now
@@ -142,8 +144,8 @@ def c14(rng):
     good = []
     for j in range(L):
         good.append(T.make_delegate_key_cert(SEEDS[ids[j]], PUBS[ids[j + 1]], now - 10, now + 10, can_further_delegate=(j < L - 1)))
-    clock = T.make_delegate_key_chain_lock(PUBS[root])
-    w = T.make_delegate_key_chain_witness(SEEDS[ids[-1]], list(reversed(good)), sf)
+    clock = T.make_delegate_key_chain_lock(PUBS[root], flh)
+    w = T.make_delegate_key_chain_witness(SEEDS[ids[-1]], list(reversed(good)), sf, flh)
     out.append(('chain:honest len=%d' % L, [bs(w), bs(clock)], cache, cfg, True))
     if L >= 2:
         j = rng.randrange(L - 1)
@@ -178,41 +180,43 @@ def c15(rng):
     cfg = tsh.Cfg()
     rcv, ref, other = rng.sample(range(len(SEEDS)), 3)
     sf = fields(rng)
+    fl = rng.choice([0, 0, 1 << (int(rng.choice(list(sf))[-1]) - 1), 0x80, 0x03])
+    flh = '%02x' % fl
     pre = bytes(rng.getrandbits(8) for _ in range(rng.randint(1, 40)))
     timeout = rng.choice([10, 30, 59])
     deadline = now + timeout
     builders = [(T.make_htlc_sha256_lock, T.make_htlc_witness, {}), (T.make_htlc_shake256_lock, T.make_htlc_witness, {'hash_size': rng.choice([16, 20, 32])}),
                 (T.make_htlc2_sha256_lock, T.make_htlc2_witness, {}), (T.make_htlc2_shake256_lock, T.make_htlc2_witness, {'hash_size': rng.choice([16, 20])})]
     lock_f, wit_f, kw = rng.choice(builders)
-    lock = lock_f(PUBS[rcv], PUBS[ref], preimage=pre, timeout=timeout, **kw)
+    lock = lock_f(PUBS[rcv], PUBS[ref], preimage=pre, timeout=timeout, sigflags=flh, **kw)
     nm = lock_f.__name__[5:-5]
     for dt in (0, timeout - 1, timeout, timeout + 1):
         cache = dict(sf, timestamp=now + dt)
-        out.append((nm + ':claim t=now%+d' % dt, [bs(wit_f(SEEDS[rcv], pre, sf)), bs(lock)], cache, cfg, True))
+        out.append((nm + ':claim t=now%+d' % dt, [bs(wit_f(SEEDS[rcv], pre, sf, flh)), bs(lock)], cache, cfg, True))
         exp = (now + dt >= deadline) and (dt < 60)
-        out.append((nm + ':refund t=now%+d deadline=now%+d' % (dt, timeout), [bs(wit_f(SEEDS[ref], b'\x00', sf)), bs(lock)], cache, cfg, exp))
+        out.append((nm + ':refund t=now%+d deadline=now%+d' % (dt, timeout), [bs(wit_f(SEEDS[ref], b'\x00', sf, flh)), bs(lock)], cache, cfg, exp))
     cache = dict(sf, timestamp=now + timeout)
-    out.append((nm + ':claim-wrong-preimage', [bs(wit_f(SEEDS[rcv], pre + b'x', sf)), bs(lock)], dict(sf, timestamp=now), cfg, False))
-    out.append((nm + ':claim-by-refund-key-before-timeout', [bs(wit_f(SEEDS[ref], pre, sf)), bs(lock)], dict(sf, timestamp=now), cfg, False))
-    out.append((nm + ':claim-by-other-key', [bs(wit_f(SEEDS[other], pre, sf)), bs(lock)], cache, cfg, False))
-    out.append((nm + ':refund-by-other-key', [bs(wit_f(SEEDS[other], b'\x00', sf)), bs(lock)], cache, cfg, False))
-    out.append((nm + ':refund-by-receiver-key', [bs(wit_f(SEEDS[rcv], b'\x00', sf)), bs(lock)], cache, cfg, False))
+    out.append((nm + ':claim-wrong-preimage', [bs(wit_f(SEEDS[rcv], pre + b'x', sf, flh)), bs(lock)], dict(sf, timestamp=now), cfg, False))
+    out.append((nm + ':claim-by-refund-key-before-timeout', [bs(wit_f(SEEDS[ref], pre, sf, flh)), bs(lock)], dict(sf, timestamp=now), cfg, False))
+    out.append((nm + ':claim-by-other-key', [bs(wit_f(SEEDS[other], pre, sf, flh)), bs(lock)], cache, cfg, False))
+    out.append((nm + ':refund-by-other-key', [bs(wit_f(SEEDS[other], b'\x00', sf, flh)), bs(lock)], cache, cfg, False))
+    out.append((nm + ':refund-by-receiver-key', [bs(wit_f(SEEDS[rcv], b'\x00', sf, flh)), bs(lock)], cache, cfg, False))
     # PTLC
     tw = bytes(rng.getrandbits(8) for _ in range(32)) if rng.random() < 0.6 else None
     t = F.clamp_scalar(tw) if tw else None
     Tp = F.derive_point_from_scalar(t) if tw else None
-    lock = T.make_ptlc_lock(PUBS[rcv], PUBS[ref], tweak_point=Tp, timeout=timeout)
+    lock = T.make_ptlc_lock(PUBS[rcv], PUBS[ref], tweak_point=Tp, timeout=timeout, sigflags=flh)
     for dt in (0, timeout - 1, timeout, timeout + 1):
         cache = dict(sf, timestamp=now + dt)
-        out.append(('ptlc:claim tweak=%s t=now%+d' % (bool(tw), dt), [bs(T.make_ptlc_witness(SEEDS[rcv], sf, tweak_scalar=t)), bs(lock)], cache, cfg, True))
-        out.append(('ptlc:refund t=now%+d' % dt, [bs(T.make_ptlc_refund_witness(SEEDS[ref], sf)), bs(lock)], cache, cfg, (dt >= timeout) and dt < 60))
+        out.append(('ptlc:claim tweak=%s t=now%+d' % (bool(tw), dt), [bs(T.make_ptlc_witness(SEEDS[rcv], sf, tweak_scalar=t, sigflags=flh)), bs(lock)], cache, cfg, True))
+        out.append(('ptlc:refund t=now%+d' % dt, [bs(T.make_ptlc_refund_witness(SEEDS[ref], sf, flh)), bs(lock)], cache, cfg, (dt >= timeout) and dt < 60))
     cache = dict(sf, timestamp=now + timeout)
-    out.append(('ptlc:claim-other-key', [bs(T.make_ptlc_witness(SEEDS[other], sf, tweak_scalar=t)), bs(lock)], cache, cfg, False))
+    out.append(('ptlc:claim-other-key', [bs(T.make_ptlc_witness(SEEDS[other], sf, tweak_scalar=t, sigflags=flh)), bs(lock)], cache, cfg, False))
     if tw:
-        out.append(('ptlc:claim-without-tweak', [bs(T.make_ptlc_witness(SEEDS[rcv], sf)), bs(lock)], cache, cfg, False))
+        out.append(('ptlc:claim-without-tweak', [bs(T.make_ptlc_witness(SEEDS[rcv], sf, sigflags=flh)), bs(lock)], cache, cfg, False))
         t2 = F.clamp_scalar(bytes(rng.getrandbits(8) for _ in range(32)))
-        out.append(('ptlc:claim-wrong-tweak', [bs(T.make_ptlc_witness(SEEDS[rcv], sf, tweak_scalar=t2)), bs(lock)], cache, cfg, False))
-    out.append(('ptlc:refund-other-key', [bs(T.make_ptlc_refund_witness(SEEDS[other], sf)), bs(lock)], cache, cfg, False))
+        out.append(('ptlc:claim-wrong-tweak', [bs(T.make_ptlc_witness(SEEDS[rcv], sf, tweak_scalar=t2, sigflags=flh)), bs(lock)], cache, cfg, False))
+    out.append(('ptlc:refund-other-key', [bs(T.make_ptlc_refund_witness(SEEDS[other], sf, flh)), bs(lock)], cache, cfg, False))
     return out
 
 
@@ -282,13 +286,23 @@ def leaf_src(i, body):
     return 'push x%02x push d1 push x%s invoke %s' % (i, REC.hex(), body)
 
 
-def rand_tree(rng, leaves):
-    """random binary tree shape over ScriptLeaf objects (classes used directly)"""
+def rand_tree(rng, leaves, history=False):
+    """random binary tree shape over ScriptLeaf objects (classes used directly).  With history=True the tree is
+    grown the way an application grows it: between two graftings, locking/unlocking scripts and commitments of
+    the partial trees are asked for (a tree object has a history; the scripts must describe its present)."""
     nodes = list(leaves)
     while len(nodes) > 1:
         i = rng.randrange(len(nodes) - 1)
         a, b = nodes[i], nodes[i + 1]
         nodes[i:i + 2] = [T.ScriptNode(a, b)]
+        if history:
+            for nd in nodes:
+                if rng.random() < 0.7:
+                    for l in leaves_of(nd):
+                        if rng.random() < 0.8 and l.parent is not None:
+                            l.unlocking_script()
+                    if not isinstance(nd, T.ScriptLeaf):
+                        nd.locking_script(); nd.commitment(); nd.unlocking_script()
     return nodes[0]
 
 
@@ -305,7 +319,7 @@ def c04(rng):
     bodies = [rng.choice(LEAF_BODIES) for _ in range(n)]
     srcs = [leaf_src(i, b) for i, b in enumerate(bodies)]
     own = [F.run_auth_scripts([Script.from_src(s).bytes], {}, cfg.contract_objs(tsh.Log())) for s in srcs]
-    kind = rng.choice(['prioritized', 'balanced', 'classes'])
+    kind = rng.choice(['prioritized', 'balanced', 'classes', 'grown', 'grown-prioritized'])
     if kind == 'prioritized':
         lock, unlocks = T.make_merklized_script_prioritized(list(srcs))
         tree = T.make_script_tree_prioritized(list(srcs))
@@ -314,11 +328,26 @@ def c04(rng):
         lock, unlocks = T.make_merklized_script_balanced(list(srcs))
         Pins.ridx = 1000
         tree = T.make_script_tree_balanced(list(srcs))
+    elif kind == 'grown-prioritized':
+        # make_script_tree_prioritized(more, tree=existing) after the existing tree has been used
+        if n < 3:
+            for k in range(n, 3):
+                srcs.append(leaf_src(k, 'false')); bodies.append('false'); own.append(False)
+            n = 3
+        cut = rng.randint(1, n - 2)
+        tree = T.make_script_tree_prioritized(list(srcs[cut:]))
+        for l in leaves_of(tree):
+            l.unlocking_script()
+        tree.locking_script()
+        tree = T.make_script_tree_prioritized(list(srcs[:cut]), tree=tree)
+        lock = tree.locking_script()
+        unlocks = [l.unlocking_script() for l in leaves_of(tree)]
+        unlocks = unlocks[:n] if len(unlocks) >= n else unlocks
     else:
         if n == 1:
             srcs.append(leaf_src(1, 'false')); bodies.append('false'); own.append(False); n = 2
         lv = [T.ScriptLeaf.from_src(s) for s in srcs]
-        tree = rand_tree(rng, lv)
+        tree = rand_tree(rng, lv, history=(kind == 'grown'))
         lock = tree.locking_script()
         unlocks = [l.unlocking_script() for l in lv]
     for i, u in enumerate(unlocks[:len(bodies)]):
@@ -377,7 +406,13 @@ def c05(rng):
         S2 = Script.from_src(leaf_src(8, 'true'))
         out.append((nm + ':scriptspend-other-script', [bs(T.make_taproot_witness_scriptspend(P, S2)), bs(lock)], sf, cfg, False, None, ''))
         out.append((nm + ':scriptspend-other-key', [bs(T.make_taproot_witness_scriptspend(PUBS[b], S)), bs(lock)], sf, cfg, False, None, ''))
-        if bad_flag := next((f for f in (1, 2, 4) if f & ~fl), None):
+        # a lock whose root differs in one bit (the x-sign bit 255 included) is not unlocked by the honest pair
+        if native:
+            lb = bytearray(bs(lock)); bit = rng.choice([255, 255, rng.randrange(256)])
+            lb[2 + (bit // 8)] ^= 1 << (bit % 8)
+            out.append((nm + ':scriptspend-against-root-bit-%d-flipped' % bit, [bs(ws), bytes(lb)], sf, cfg, False, None, ''))
+        cands = [f for f in (1, 2, 4, 8, 0x10, 0x20, 0x40, 0x80) if f & ~fl]
+        if bad_flag := (rng.choice(cands) if cands else None):
             out.append((nm + ':keyspend-flag-not-permitted', [bs(T.make_taproot_witness_keyspend(SEEDS[a], sf, S, sigflags='%02x' % bad_flag)), bs(lock)], sf, cfg, False, None, ''))
     return out
 
@@ -432,18 +467,30 @@ def c17(rng):
     facts.append(('decryption with another scalar is not a signature', not valid(RT2 + s2, m, X)))
     for nm, ok in facts:
         out.append(('adapter-op: ' + nm, None, None, None, ok))
-    # builders end to end (correspondence + expectation)
-    l1, l2, l3 = T.make_adapter_locks_prv(X, tw)
+    # builders end to end (correspondence + expectation), with and without sigflags
+    fl = rng.choice([0, 1 << (int(rng.choice(list(sf))[-1]) - 1)])
+    flh = '%02x' % fl
+    for maker in ('prv', 'pub'):
+        if maker == 'prv':
+            l1, l2, l3 = T.make_adapter_locks_prv(X, tw, flh)
+        else:
+            l1, l3 = T.make_adapter_locks_pub(X, Tp, flh)
+            l2 = T.make_adapter_decrypt(tw)
+        nm = 'adapter-locks(%s,flags=%s): ' % (maker, flh)
+        w = T.make_adapter_witness(seed, Tp, sf, flh)
+        out.append((nm + 'witness passes verify lock', [bs(w), bs(l1)], sf, cfg, True))
+        out.append((nm + 'other signer fails', [bs(T.make_adapter_witness(SEEDS[b], Tp, sf, flh)), bs(l1)], sf, cfg, False))
+        pf = perturb_fields(rng, sf, fl)
+        if pf:
+            out.append((nm + 'changed covered field fails', [bs(w), bs(l1)], pf, cfg, False))
+        out.append((nm + 'decrypt + concat + check_sig', [bs(w), bs(l2), bytes([F.opcodes_inverse['OP_CONCAT'][0]]), bs(l3)], sf, cfg,
+                    True if fl == 0 else None))
+        out.append((nm + 'wrong tweak then check_sig', [bs(w), bs(T.make_adapter_decrypt(bytes(rng.getrandbits(8) for _ in range(32)))), bytes([F.opcodes_inverse['OP_CONCAT'][0]]), bs(l3)], sf, cfg, False))
+        dec = T.decrypt_adapter(w, tw)
+        if fl == 0:
+            out.append(('decrypt_adapter == RT||s', None, None, None, dec == RT + s if sf else True))
+        out.append((nm + 'decrypted sig (+flag byte) unlocks', [gpush(dec + (bytes([fl]) if fl else b'')), bs(l3)], sf, cfg, True))
     w = T.make_adapter_witness(seed, Tp, sf)
-    out.append(('adapter-locks: witness passes verify lock', [bs(w), bs(l1)], sf, cfg, True))
-    out.append(('adapter-locks: other signer fails', [bs(T.make_adapter_witness(SEEDS[b], Tp, sf)), bs(l1)], sf, cfg, False))
-    pf = perturb_fields(rng, sf)
-    out.append(('adapter-locks: changed field fails', [bs(w), bs(l1)], pf, cfg, False))
-    out.append(('adapter-locks: decrypt + concat + check_sig', [bs(w), bs(l2), bytes([F.opcodes_inverse['OP_CONCAT'][0]]), bs(l3)], sf, cfg, True))
-    out.append(('adapter-locks: wrong tweak then check_sig', [bs(w), bs(T.make_adapter_decrypt(bytes(rng.getrandbits(8) for _ in range(32)))), bytes([F.opcodes_inverse['OP_CONCAT'][0]]), bs(l3)], sf, cfg, False))
-    dec = T.decrypt_adapter(w, tw)
-    out.append(('decrypt_adapter == RT||s', None, None, None, dec == RT + s if sf else True))
-    out.append(('adapter-locks: decrypted sig unlocks', [gpush(dec), bs(l3)], sf, cfg, True))
     # deprecated single-script lock
     lk = T.make_adapter_lock_prv(X, tw)
     out.append(('adapter-lock(single): honest', [gpush(tw) + bs(w), bs(lk)], sf, cfg, True))
@@ -471,7 +518,14 @@ def c18(rng):
     pubs = [PUBS[i] for i in ids]
     prvs = [SEEDS[i] for i in ids]
     seed = bytes(rng.getrandbits(8) for _ in range(rng.randint(1, 32)))
-    am = T.setup_amhl(seed, pubs)
+    # refund keys for a random subset of the hops (none / all / partial): those hops get a PTLC as second lock
+    mode = rng.choice(['none', 'all', 'partial', 'partial', 'first-only'])
+    rsub = {'none': [], 'all': list(range(n)), 'first-only': [0]}.get(mode)
+    if rsub is None:
+        rsub = [i for i in range(n) if rng.random() < 0.5]
+    others = [i for i in range(len(SEEDS)) if i not in ids]
+    refunds = {pubs[i]: PUBS[rng.choice(others)] for i in rsub}
+    am = T.setup_amhl(seed, pubs, refund_pubkeys=refunds) if mode != 'none' else T.setup_amhl(seed, pubs)
     setup = _AM.AMHL.setup(n, seed)
     ys, Ys = setup
     G = nb.crypto_scalarmult_ed25519_base_noclamp
@@ -497,12 +551,20 @@ def c18(rng):
         if sig is not None:
             k = T.release_left_amhl_lock(wits[i + 1].bytes, sig, am[pubs[i + 1]][3])
         sig = T.decrypt_adapter(wits[i].bytes, k)
-        out.append(('amhl: hop %d unlocks with released scalar' % i, [gpush(sig), bs(am[pubs[i]][1])], sfs[i], cfg, True))
+        tail = bytes([F.opcodes_inverse['OP_TRUE'][0]]) if i in rsub else b''   # PTLC main branch selector
+        out.append(('amhl(%s): hop %d (%s) unlocks with released scalar' % (mode, i, 'ptlc' if i in rsub else 'single-sig'),
+                    [gpush(sig) + tail, bs(am[pubs[i]][1])], sfs[i], cfg, True))
+        if i not in rsub:
+            out.append(('amhl(%s): hop %d second lock is the single-sig lock' % (mode, i), None, None, None,
+                        bs(am[pubs[i]][1]) == bs(T.make_single_sig_lock(pubs[i]))))
+        else:
+            out.append(('amhl(%s): hop %d refund branch before the timeout' % (mode, i),
+                        [gpush(sig) + bytes([F.opcodes_inverse['OP_FALSE'][0]]), bs(am[pubs[i]][1])], sfs[i], cfg, False))
         # scalar of another hop does not
         j = rng.choice([x for x in range(n) if x != i])
         other = _AM.AMHL.scalar_sum(*ys[:j + 1])
         bad = T.decrypt_adapter(wits[i].bytes, other)
-        out.append(('amhl: hop %d with scalar of hop %d' % (i, j), [gpush(bad), bs(am[pubs[i]][1])], sfs[i], cfg, False))
+        out.append(('amhl: hop %d with scalar of hop %d' % (i, j), [gpush(bad) + tail, bs(am[pubs[i]][1])], sfs[i], cfg, False))
     return out
 
 
